@@ -13,16 +13,16 @@ VARIABLES l, bad
 R == Trace[l]
 RECURSIVE StringifyAll(_)
 StringifyAll(pairs) == IF pairs = <<>> THEN <<>> ELSE <<Stringify(Head(pairs))>> \o StringifyAll(Tail(pairs))
-Probes == {"first_1", "exit_1", "after_2", "exit_2"}
+Probes == {"first_1", "exit_1", "after_2", "exit_2", "exit_3"}     \* exit_3: the exit handler of a retry of the retry
 OutVars == {"OUTV", "ARG_OUTV"}      \* the captured value as seen in the environment / on the command line
 RunClauses(r) ==
   (IF r.infra # "" THEN {"INFRA"} ELSE
    UNION {
      (IF r.probes[p].missing THEN {"C11_ConsumerDidNotRun"} ELSE {})
      \cup (IF \E i \in DOMAIN r.probes[p].bad : r.probes[p].bad[i] \in OutVars
-             THEN {IF p \in {"after_2", "exit_2"} THEN "C11_OutputLostInRetry" ELSE "C11_OutputValueWrong"} ELSE {})
+             THEN {IF p \in {"after_2", "exit_2", "exit_3"} THEN "C11_OutputLostInRetry" ELSE "C11_OutputValueWrong"} ELSE {})
      \cup (IF \E i \in DOMAIN r.probes[p].bad : r.probes[p].bad[i] \notin OutVars
-             THEN {IF p \in {"after_2", "exit_2"} THEN "C11_RetryParametersDiffer" ELSE "C11_ParameterValueChanged"} ELSE {})
+             THEN {IF p \in {"after_2", "exit_2", "exit_3"} THEN "C11_RetryParametersDiffer" ELSE "C11_ParameterValueChanged"} ELSE {})
      : p \in Probes })
 \* kind "cli": the same through the command layer of the real binary: start -p (as the API's client spawns it), restart of
 \* the running DAG (the new run takes the parameters of the previous one), retry of the canceled first run
